@@ -41,6 +41,11 @@ type VerifC10Result struct {
 	WorkingSet uint64           `json:"working_set"`
 	Sample     string           `json:"sample,omitempty"`
 	EngineErr  string           `json:"engine_error,omitempty"`
+	// Recycle: the unit stopped early (at Next) after a case that allocated ≥64 MiB: the Go runtime never gives
+	// address space back, so the worker asks to be replaced instead of dying later of an innocent allocation
+	Recycle   bool `json:"recycle,omitempty"`
+	Partial   bool `json:"partial,omitempty"` // an intermediate result (cases up to Next); counters restart after it
+	lastAlloc uint64
 }
 
 const (
@@ -433,9 +438,14 @@ func vdecodeMeasured(dec func([]byte, int16) (reflect.Value, error), data []byte
 	return
 }
 
-// VerifC10RunUnit executes the cases of a unit starting at case index `from`; progress is told the case about to run.
-func VerifC10RunUnit(unit string, from int, progress func(string)) (res VerifC10Result) {
-	res = VerifC10Result{Unit: unit, ByClass: map[string]int{}, Outcomes: map[string]int{}, Errors: map[string]int{}, SigCount: map[string]int{}}
+// VerifC10RunUnit executes the cases of a unit starting at case index `from`, leaving out the indices in skip (cases
+// known to kill the process); progress is told the case about to run; flush (optional) receives intermediate
+// results every 1000 cases, so that a later death of the process loses little.
+func VerifC10RunUnit(unit string, from int, skip map[int]bool, progress func(string), flush func(VerifC10Result)) (res VerifC10Result) {
+	fresh := func() VerifC10Result {
+		return VerifC10Result{Unit: unit, ByClass: map[string]int{}, Outcomes: map[string]int{}, Errors: map[string]int{}, SigCount: map[string]int{}}
+	}
+	res = fresh()
 	u, err := vparseC10Unit(unit)
 	if err != nil {
 		res.EngineErr = err.Error()
@@ -445,21 +455,53 @@ func VerifC10RunUnit(unit string, from int, progress func(string)) (res VerifC10
 	debug.SetGCPercent(-1)
 	defer debug.SetGCPercent(100)
 	seen := map[uint64]bool{}
+	flushedDistinct := 0
+	seedsCounted := map[*vc10seed]bool{}
 	idx := 0 // global case index over all seeds of the unit
 	run := func(seed *vc10seed, total int) func(i int, m vmutation, data []byte) bool {
 		return func(i int, m vmutation, data []byte) bool {
+			if skip[total+i] {
+				return true
+			}
+			if i == 0 && !seedsCounted[seed] && seed.data != nil {
+				seedsCounted[seed] = true
+				res.Seeds++
+				res.SeedBytes += len(seed.data)
+				if seed.cold > res.WorkingSet {
+					res.WorkingSet = seed.cold
+				}
+			}
 			caseID := fmt.Sprintf("%s#%d", unit, total+i)
 			progress(caseID)
-			vc10case(u, seed, caseID, m, data, &res, seen)
+			if vc10case(u, seed, caseID, m, data, &res, seen) {
+				res.Recycle = true
+				res.Next = total + i + 1
+				return false
+			}
+			if flush != nil && res.Cases >= 1000 {
+				res.Partial = true
+				res.Next = total + i + 1
+				res.Distinct = len(seen) - flushedDistinct
+				flushedDistinct = len(seen)
+				flush(res)
+				fam := res.Family
+				res = fresh()
+				res.Family = fam
+			}
 			return true
 		}
+	}
+	finish := func() {
+		res.Distinct = len(seen) - flushedDistinct
 	}
 	if strings.HasPrefix(u.mode, "short:") {
 		maxLen, _ := strconv.Atoi(u.mode[6:])
 		seed := &vc10seed{id: "(none)"}
-		n, _ := vshortStrings(maxLen, from, run(seed, 0))
-		res.Next = n
-		res.Distinct = len(seen)
+		n, done := vshortStrings(maxLen, from, run(seed, 0))
+		if done {
+			res.Next = n
+		}
+		finish()
 		return
 	}
 	seeds, engErr := vc10seeds(u)
@@ -468,23 +510,22 @@ func VerifC10RunUnit(unit string, from int, progress func(string)) (res VerifC10
 		return
 	}
 	for _, s := range seeds {
-		res.Seeds++
-		res.SeedBytes += len(s.data)
-		if s.cold > res.WorkingSet {
-			res.WorkingSet = s.cold
+		skipN := from - idx
+		if skipN < 0 {
+			skipN = 0
 		}
-		skip := from - idx
-		if skip < 0 {
-			skip = 0
+		n, done := vmutate(s.data, skipN, run(s, idx))
+		if res.Sample == "" && from == 0 {
+			res.Sample = fmt.Sprintf("seed %s = %s (%d bytes)", s.id, vtrunc(hex.EncodeToString(s.data), 160), len(s.data))
 		}
-		n, _ := vmutate(s.data, skip, run(s, idx))
+		if !done {
+			finish()
+			return
+		}
 		idx += n
-		if res.Sample == "" {
-			res.Sample = fmt.Sprintf("seed %s = %s (%d bytes, %d mutations)", s.id, vtrunc(hex.EncodeToString(s.data), 160), len(s.data), n)
-		}
 	}
 	res.Next = idx
-	res.Distinct = len(seen)
+	finish()
 	return
 }
 
@@ -574,7 +615,8 @@ func vexecEncodeOnly(id vcaseID) *vrun {
 	return r
 }
 
-func vc10case(u *vc10unit, seed *vc10seed, caseID string, m vmutation, data []byte, res *VerifC10Result, seen map[uint64]bool) {
+func vc10case(u *vc10unit, seed *vc10seed, caseID string, m vmutation, data []byte, res *VerifC10Result, seen map[uint64]bool) (big bool) {
+	defer func() { big = res.lastAlloc >= 64<<20 }()
 	cfg := u.fam.Cfgs[u.cfg]
 	_, dec := u.fam.encdec(cfg)
 	res.Cases++
@@ -582,6 +624,7 @@ func vc10case(u *vc10unit, seed *vc10seed, caseID string, m vmutation, data []by
 	seen[vfnv(data)] = true
 	input := append([]byte{}, data...) // decoders alias their input; keep a pristine copy for the report
 	v, err, alloc := vdecodeMeasured(dec, data, u.ver)
+	res.lastAlloc = alloc
 	allowance := uint64(vAllocBase + vAllocPerByte*len(input))
 	if seed.decSz > 0 {
 		allowance += uint64(vAllocPerDec*seed.decSz) + seed.cold
@@ -646,6 +689,7 @@ func vc10case(u *vc10unit, seed *vc10seed, caseID string, m vmutation, data []by
 			report("wrong-records", "crc-or-length", fmt.Sprintf("a mutation inside a checksummed region / length field decodes without error to different records\n%s", vtrunc(d, 600)))
 		}
 	}
+	return
 }
 
 // VerifC10RunCase replays "unit#index".
